@@ -5,7 +5,7 @@ PATCH="$1"; shift
 cd /repo || exit 2
 if [ -n "$(git status --porcelain --untracked-files=no)" ]; then echo "repo dirty"; exit 2; fi
 if ! git apply --3way "$PATCH" 2>/tmp/apply.err; then
-  if ! git apply "$PATCH" 2>>/tmp/apply.err; then echo "APPLY-FAILED $(head -3 /tmp/apply.err | tr '\n' ' ')"; git checkout -q -- . ; git reset -q; exit 3; fi
+  if ! git apply "$PATCH" 2>>/tmp/apply.err; then echo "APPLY-FAILED $(head -3 /tmp/apply.err | tr '\n' ' ')"; git reset -q --hard HEAD; exit 3; fi
 fi
 git reset -q
 for id in "$@"; do
@@ -15,5 +15,5 @@ for id in "$@"; do
   viol=$(echo "$out" | grep -A1 "^VIOLATION" | grep -v "^VIOLATION\|^--" | head -1 | cut -c1-220)
   echo "  $id rc=$rc ${summary#* } ${viol}"
 done
-git checkout -q -- .
+git reset -q --hard HEAD
 git status --porcelain --untracked-files=no | head -3
